@@ -116,10 +116,20 @@ theorem checkRecord_witness_rejects_mutations :
     bad (checkRecord TH.node p.reverse 7 (root 7) 2 (TH.leaf [2])) = true ∧
     bad (checkRecord TH.node (p ++ [TH.junk 1]) 7 (root 7) 2 (TH.leaf [2])) = true ∧
     bad (checkRecord TH.node p 7 (root 7) 3 (TH.leaf [2])) = true ∧
-    bad (checkRecord TH.node p 6 (root 7) 2 (TH.leaf [2])) = true ∧
-    bad (checkRecord TH.node p 8 (root 7) 2 (TH.leaf [2])) = true ∧
+    bad (checkRecord TH.node p 9 (root 7) 2 (TH.leaf [2])) = true ∧
+    bad (checkRecord TH.node p 4 (root 7) 2 (TH.leaf [2])) = true ∧
     bad (checkRecord TH.node p 7 (root 7) 2 (TH.leaf [3])) = true ∧
     bad (checkRecord TH.node p 7 (root 6) 2 (TH.leaf [2])) = true := by decide +kernel
+
+/-- "…unless it leaves the tuple valid": the audit path of record 2 has the same shape in trees of 6, 7 and 8
+    records, so changing only the size to 6 or 8 is still a valid tuple — for the checker AND for the
+    RFC 9162 algorithm (the size is not bound by an inclusion proof; this is RFC behaviour, not a defect). -/
+theorem checkRecord_witness_size_change_still_valid :
+    let p := RFC6962.path TH.node TH.empty 2 ((recs 7).map TH.leaf)
+    isOk (checkRecord TH.node p 6 (root 7) 2 (TH.leaf [2])) () = true ∧
+    RFC6962.verifyInclusion TH.node p 6 2 (TH.leaf [2]) (root 7) = true ∧
+    isOk (checkRecord TH.node p 8 (root 7) 2 (TH.leaf [2])) () = true ∧
+    RFC6962.verifyInclusion TH.node p 8 2 (TH.leaf [2]) (root 7) = true := by decide +kernel
 
 /-- the proof that tree 3 is a prefix of tree 7 is the RFC 6962 consistency proof, is accepted, and is
     accepted by the RFC 9162 algorithm; changing the old root, the new root, the sizes or a hash is rejected. -/
@@ -132,7 +142,7 @@ theorem proveTree_witness :
     bad (checkTree TH.node p 7 (root 7) 3 (root 2)) = true ∧
     bad (checkTree TH.node p 7 (root 6) 3 (root 3)) = true ∧
     bad (checkTree TH.node p 7 (root 7) 4 (root 3)) = true ∧
-    bad (checkTree TH.node p 6 (root 7) 3 (root 3)) = true ∧
+    bad (checkTree TH.node p 9 (root 7) 3 (root 3)) = true ∧
     bad (checkTree TH.node (p.set 1 (TH.junk 0)) 7 (root 7) 3 (root 3)) = true ∧
     bad (checkTree TH.node p.reverse 7 (root 7) 3 (root 3)) = true ∧
     bad (checkTree TH.node p.dropLast 7 (root 7) 3 (root 3)) = true := by decide +kernel
